@@ -206,6 +206,14 @@ var metricsBase []byte
 
 // content returns the concrete bytes of an abstract (path, tag).
 func content(rel, tag string) []byte {
+	switch tag { // legal placeholders: a zero-length file, a whitespace-only file, a comment-only file
+	case "e0":
+		return []byte{}
+	case "ws":
+		return []byte(" \n  \n")
+	case "cm":
+		return []byte("# placeholder\n")
+	}
 	switch {
 	case strings.HasPrefix(rel, "flows/"):
 		return []byte(flowYAML(flowLetter(rel), tag))
@@ -241,14 +249,15 @@ func ppSlug(rel string) string {
 // files of the universe besides the three probed flows; nested ones live in a sub-directory (flows and quotas are read
 // from the top level only - a nested file there is inert for the engine but still part of the tree; path parameters are
 // read recursively)
-var ppFiles = []string{"path_params/p.yaml", "path_params/team/np.yaml"}
+var ppFiles = []string{"path_params/p.yaml", "path_params/team/np.yaml", "path_params/a.yaml"}
 var universeCat = map[string]int{
 	"flows/a.yaml": 1, "flows/b.yaml": 1, "flows/c.yaml": 1, "flows/team/n.yaml": 1,
 	"quotas/q.yaml": 2, "quotas/team/nq.yaml": 2, "path_params/p.yaml": 3, "path_params/team/np.yaml": 3,
+	"quotas/a.yaml": 2, "path_params/a.yaml": 3, // the same base name as flows/a.yaml in the other directories
 	"gateway_config.yaml": 4, "metrics.yaml": 5, "default_metrics.yaml": 6}
 var inertFiles = []string{"flows/team/n.yaml", "quotas/team/nq.yaml"}
 
-var allTags = []string{"d1", "v1", "v2", "v3", "bad", "junk", "g1", "g2", "gbad", "m1", "m2", "mbad", "q1", "q2", "p1", "p2"}
+var allTags = []string{"e0", "ws", "cm", "d1", "v1", "v2", "v3", "bad", "junk", "g1", "g2", "gbad", "m1", "m2", "mbad", "q1", "q2", "p1", "p2"}
 
 // ---------------------------------------------------------------- executor state
 
@@ -930,7 +939,8 @@ func main() {
 	x.dm.SetHandleRoutes(x.mux)
 	setup := time.Since(t0)
 
-	x.tr.Add(vh.Ev{"ev": "config", "flows": flowFiles, "cat": universeCat, "inert": inertFiles})
+	x.tr.Add(vh.Ev{"ev": "config", "flows": flowFiles, "cat": universeCat, "inert": inertFiles,
+		"fixed": []string{"default_metrics.yaml"}, "pp": ppFiles})
 	t1 := time.Now()
 	x.trc.Add(vh.Ev{"ev": "config", "flows": flowFiles, "fixed": []string{"default_metrics.yaml"}})
 	for _, c := range sc.Cases {
